@@ -165,9 +165,10 @@ class Run:
               'assumptions': self.assumptions + ['summary: ' + s for s in self.summaries],
               'wall_s': round(time.time() - self.t0, 2), 'violations': n_viol}
         p = os.path.join(VERIF, 'evidence', f'{self.prop}.json')
-        with open(p + '.tmp', 'w') as fh:
+        tmp = p + f'.tmp{os.getpid()}'          # two runs of the same check at once (regression tooling) must not share it
+        with open(tmp, 'w') as fh:
             json.dump(ev, fh, indent=1, default=str)
-        os.rename(p + '.tmp', p)
+        os.rename(tmp, p)
 
 
 def slug(s):
